@@ -227,6 +227,26 @@ func init() {
 					}
 				}
 			}
+			if r.P(200) {
+				// some commands close their own stdout and stderr and live on for a while
+				// (exec >/dev/null 2>&1): the back-off still counts from their exit
+				for _, p := range sc.Project.Procs {
+					if ts := sc.Scripts[p.Token]; ts != nil {
+						for l := range ts.Launches {
+							if L := &ts.Launches[l]; L.LifeMs >= 1000 && len(L.Children) == 0 && r.P(600) {
+								at := L.LifeMs - Pick(r, 400, 700, 900)
+								var out []simos.OutChunk
+								for _, c := range L.Out {
+									if c.AtMs < at {
+										out = append(out, c)
+									}
+								}
+								L.Out = append(out, simos.OutChunk{AtMs: at, Stream: 0})
+							}
+						}
+					}
+				}
+			}
 			switch r.Intn(5) {
 			case 4:
 				// a shutdown that is held up by a slow process while the subject is in (or
@@ -306,6 +326,24 @@ func init() {
 				sc.Clients = append(sc.Clients, Client{Name: "rp", Ops: ops})
 				sc.Strategy.StallPermille = 0
 				sc.Arm = "repend"
+				return sc
+			}
+			if r.P(100) {
+				// a dependency fails while its dependents wait, and at that very instant somebody
+				// starts it again: the dependents act on the life that has just ended
+				L := Pick(r, 1000, 2000, 2500)
+				sc.Project.Procs = append(sc.Project.Procs, &ProcSpec{Name: "fx", Token: "fx"})
+				sc.Scripts["fx"] = &TokenScript{Launches: []simos.Script{{LifeMs: L, Exit: Pick(r, 1, 2)}, {LifeMs: 3000, Exit: 0}, {LifeMs: 3000, Exit: 0}}}
+				for i := 0; i < r.Range(2, 4); i++ {
+					nm := fmt.Sprintf("fd%d", i)
+					sc.Project.Procs = append(sc.Project.Procs, &ProcSpec{Name: nm, Token: nm, DependsOn: map[string]string{"fx": "process_completed_successfully"}})
+					sc.Scripts[nm] = &TokenScript{Launches: []simos.Script{{LifeMs: 500}}}
+				}
+				for c := 0; c < r.Range(1, 3); c++ {
+					sc.Clients = append(sc.Clients, Client{Name: fmt.Sprintf("again%d", c), Ops: []Op{{AtMs: L, Op: "start", Arg: "fx"}, {AtMs: L, Op: "start", Arg: "fx"}}})
+				}
+				sc.Strategy.StallPermille = 0
+				sc.Arm = "startatexit"
 				return sc
 			}
 			if r.P(100) {
@@ -454,6 +492,18 @@ func init() {
 				sortOps(poll)
 				sc.Clients = append(sc.Clients, Client{Name: "poll", Ops: poll})
 			}
+			// stop requests that arrive at the very instant at which the first command of a
+			// process ends by itself (the final state is being recorded while the stop looks at it)
+			if r.P(450) {
+				for _, p := range sc.Project.Procs {
+					if ts := sc.Scripts[p.Token]; ts != nil && len(ts.Launches) > 0 && ts.Launches[0].LifeMs > 0 && len(p.DependsOn) == 0 && !p.Disabled && r.P(800) {
+						sc.Clients = append(sc.Clients, Client{Name: "atexit-" + p.Name, Ops: []Op{{AtMs: ts.Launches[0].LifeMs, Op: Pick(r, "stop", "stop", "restart"), Arg: p.Name}}})
+						if sc.Arm == "" {
+							sc.Arm = "quiesce"
+						}
+					}
+				}
+			}
 			return sc
 		},
 		Check: func(sc *Scenario, res *RunResult, t *Truth) []Violation { return checkC09(sc, t) },
@@ -595,6 +645,29 @@ func init() {
 				genC08UpdatePending(r, sc)
 				return sc
 			}
+			if r.P(40) {
+				// a stop and a restart of the same process at the same instant, under a
+				// supervisor whose goroutines are set aside for seconds now and then (F13): the
+				// stop may have looked the instance up before the restart replaced it. Whatever
+				// happened, a later, ordinary stop still stops what runs.
+				sc.Project = &ProjectSpec{}
+				sc.Scripts = map[string]*TokenScript{}
+				sc.Project.Procs = append(sc.Project.Procs, &ProcSpec{Name: "p0", Token: "p0"}, &ProcSpec{Name: "p1", Token: "p1"})
+				life := simos.Script{LifeMs: -1, TermLagMs: Pick(r, 0, 10)}
+				sc.Scripts["p0"] = &TokenScript{Launches: []simos.Script{life, life, life, life}}
+				sc.Scripts["p1"] = &TokenScript{Launches: []simos.Script{life}}
+				sc.Clients = []Client{
+					{Name: "s", Ops: []Op{{AtMs: 2000, Op: "stop", Arg: "p0"}}},
+					{Name: "rs", Ops: []Op{{AtMs: 2000, Op: "restart", Arg: "p0"}}},
+					{Name: "late", Ops: []Op{{AtMs: 25000, Op: "stop", Arg: "p0"}}},
+				}
+				sc.Strategy = genStrategy(r)
+				sc.Strategy.StallPermille = 0
+				sc.Arm = "stalestop"
+				sc.ForceStallTask, sc.ForceStallMs, sc.StallSweep = "client:s", Pick(r, 2500, 4000), 40
+				sc.RunForMs = 40000
+				return sc
+			}
 			k := lifecycleKnobs()
 			k.MinProcs, k.MaxProcs = 1, 3
 			k.RestartP = 500
@@ -607,6 +680,11 @@ func init() {
 			GenCore(r, k, sc)
 			sc.Arm = "quiesce"
 			sc.RunForMs = 25000
+			if r.P(150) {
+				// a daemon with a slow launcher: requests meet it while it is Launching and after
+				addSlowDaemon(r, sc, "dm")
+				sc.Strategy.StallPermille = 0
+			}
 			nc := r.Range(2, 4)
 			for c := 0; c < nc; c++ {
 				var ops []Op
@@ -774,8 +852,9 @@ func init() {
 				sc.Project.Procs = append(sc.Project.Procs, chat)
 				var reads []Op
 				for i := r.Range(5, 15); i > 0; i-- {
-					reads = append(reads, Op{AtMs: whenMs(r, 8000), Op: "log", Arg: "chat", N: r.Range(0, 5), M: Pick(r, 0, 50, 200)})
+					reads = append(reads, Op{AtMs: whenMs(r, 8000), Op: "log", Arg: "chat", N: r.Range(0, 5), M: Pick(r, 0, 50, 200), Rest: r.P(500)})
 				}
+				sc.Rest = true
 				sortOps(reads)
 				sc.Clients = append(sc.Clients, Client{Name: "lr", Ops: reads})
 			}
@@ -1019,15 +1098,62 @@ func init() {
 						minLines = sc.Project.LogLength + 110
 					}
 					genOutput(r, &ts.Launches[l], p.Name, l, minLines)
+					if r.P(120) {
+						// fault F6: reading the command's stdout fails part-way
+						// (at a line boundary, or right after a '/': what is left of the line
+						// then cannot be mistaken for another, complete line)
+						all := ""
+						for _, c := range ts.Launches[l].Out {
+							if c.Stream == 1 {
+								all += c.Data
+							}
+						}
+						var cands []int
+						for i := 3; i < len(all); i++ {
+							if all[i-1] == '/' || all[i-1] == '\n' {
+								cands = append(cands, i)
+							}
+						}
+						if len(cands) > 0 {
+							ts.Launches[l].ReadErrAt = cands[r.Intn(len(cands))]
+						}
+					}
 					if r.P(80) {
 						// a background child keeps the pipes open for a while after the exit
 						ts.Launches[l].Children = []simos.Script{{LifeMs: ts.Launches[l].LifeMs + Pick(r, 100, 1000), HoldsPipes: true}}
 					}
 				}
+				if (p.Restart == "always" || p.Restart == "on_failure") && len(ts.Launches) >= 2 && ts.Launches[0].LifeMs >= 0 && r.P(300) {
+					// the restart attempt cannot be started: what the first attempt wrote is
+					// in the log all the same
+					if ts.Launches[0].Exit == 0 {
+						ts.Launches[0].Exit = 1
+					}
+					ts.Launches[1] = simos.Script{StartErr: "no such file or directory"}
+					ts.Launches = ts.Launches[:2]
+				}
+				if p.Restart == "" && len(p.DependsOn) == 0 && !p.Disabled && len(ts.Launches) > 0 && ts.Launches[0].StartErr == "" && r.P(200) {
+					// stopped while it is writing: it ignores SIGTERM, and the SIGKILL that follows
+					// the time-out lands on a burst of output
+					L := &ts.Launches[0]
+					L.LifeMs, L.Ignore, L.Children = -1, []int{15}, nil
+					tmo := Pick(r, 1, 2)
+					p.StopTimeout = iptr(tmo)
+					sc.Clients = append(sc.Clients, Client{Name: "stop-" + p.Name, Ops: []Op{{AtMs: 3000 - 1000*tmo, Op: "stop", Arg: p.Name}}})
+				}
 			}
 			return sc
 		},
 		Check: checkC11,
+		// (the line ids are unique only while every launch has a script of its own)
+		Valid: func(sc *Scenario) bool {
+			for _, p := range sc.Project.Procs {
+				if ts := sc.Scripts[p.Token]; ts != nil && (p.Restart == "always" || p.Restart == "on_failure") && len(ts.Launches) < p.MaxRestarts+1 && ts.Launches[len(ts.Launches)-1].StartErr == "" {
+					return false
+				}
+			}
+			return true
+		},
 		NonTrivial: func(sc *Scenario, res *RunResult, t *Truth) bool {
 			n := 0
 			for _, in := range t.Insts {
